@@ -58,23 +58,26 @@ def run(rep, facts):
         rep.ok("R19.1", "owned-hash-delegates", "the only hashing call is <VarName as Hash>::hash(self.as_var(), state) on every path", b.loc())
     else:
         rep.violation("R19.1", "owned-hash-delegates", "the owned name's hash does more than / something other than delegating to the borrowed view's hash (different write sequence => equal names may hash differently)", b.loc())
+    # as_var / Borrow<VarName>::borrow: one of them builds the view of self.as_ref(), the other may delegate to it (either way round)
+    kinds = {}
+    locs = {}
     for raw, nm in ((OWN + "::as_var", "as_var"), ("<cgi::OwnedVarName as std::borrow::Borrow<cgi::VarName>>::borrow", "borrow")):
         b2, g2, rows2 = rows_path(facts, raw)
-        ok2 = False
+        locs[nm] = b2.loc()
+        kind = None
         for r in rows2:
             if r.end == 'return' and r.ret is not None:
-                x = r.ret
-                # borrow(): <&VarName as From<&T>>::from(self.as_ref()) ; as_var(): self.borrow()
-                calls = [y for y in ir.walk(x) if y[0] == 'call']
-                names = [y[1] for y in calls]
-                if nm == "borrow":
-                    ok2 = any(n_.endswith("AsRef>::as_ref") for n_ in names) and any(ir.peel(y[2][0])[0] == 'param' for y in calls if y[1].endswith("AsRef>::as_ref"))
-                else:
-                    ok2 = any(n_.endswith("Borrow>::borrow") for n_ in names)
-        if ok2:
-            rep.ok("R19.1", nm, "view of the same string (%s)" % ("VarName::from(self.as_ref())" if nm == "borrow" else "self.borrow()"), b2.loc())
+                calls = [y for y in ir.walk(r.ret) if y[0] == 'call']
+                direct = any(y[1].endswith("AsRef>::as_ref") and ir.peel(y[2][0])[0] == 'param' for y in calls)
+                other = "Borrow>::borrow" if nm == "as_var" else "::as_var"
+                deleg = any(y[1].endswith(other) and y[2] and ir.peel(y[2][0])[0] == 'param' for y in calls)
+                kind = 'direct' if direct else ('delegates' if deleg else None)
+        kinds[nm] = kind
+    for nm in ("as_var", "borrow"):
+        if kinds[nm] is not None and 'direct' in kinds.values():
+            rep.ok("R19.1", nm, "view of the same string (%s)" % ("VarName view of self.as_ref()" if kinds[nm] == 'direct' else "delegates to the other accessor"), locs[nm])
         else:
-            rep.violation("R19.1", nm, "%s does not return the VarName view of self.as_ref()" % nm, b2.loc())
+            rep.violation("R19.1", nm, "%s does not return the VarName view of self.as_ref()" % nm, locs[nm])
 
     # ---- R19.2 ---------------------------------------------------------------------------------------------
     for raw, meth, fast in (("<cgi::OwnedVarName as std::cmp::PartialEq>::eq", "eq", "<cgi::intern::StaticVarName as std::cmp::PartialEq>::eq"),
